@@ -622,6 +622,13 @@ func handleInputStream(s *Session, handler Handler) (err error) {
 		id:          id,
 	}
 	if err := handler.HandleXMPP(rw, &start); err != nil {
+		// io.EOF is the sentinel that tells Serve that the peer closed the input
+		// stream. A handler that merely ran out of tokens (for example the
+		// multiplexer on a get or set IQ without a payload) must not end the
+		// session as if the stream had been closed cleanly.
+		if err == io.EOF {
+			err = io.ErrUnexpectedEOF
+		}
 		return err
 	}
 
